@@ -115,7 +115,7 @@ func TestInterleavedRequests(t *testing.T) {
 			}
 			sessions = append(sessions, sess)
 			if rapid.Bool().Draw(t, "sameKey") {
-				o.OKey, o.RKeyIdx = sess.OKey, rsaIndex(sess)
+				o.OKey, o.RKeyIdx, o.RKey = sess.OKey, rsaIndex(sess), sess.RKey
 				if typ == 3 {
 					o.Issuer3, o.Origin = sess.Issuer3, &sess.Origin
 				}
